@@ -160,10 +160,23 @@ class GuardAnalysis:
             elif re.search(r'cmp::PartialEq::eq$|cmp::PartialEq::ne$', dd) and len(t['args']) == 2:
                 other = t['args'][1]
                 c = None
+                hops = 0
+                while other['k'] in ('copy', 'move') and not other['pl']['p'] and hops < 4:
+                    # a reference to a promoted constant bound to a local first
+                    hops += 1
+                    ds_ = self.defs.defs.get(other['pl']['l'], [])
+                    if len(ds_) == 1 and ds_[0][0] == 'assign' and ds_[0][2]['rv']['r'] == 'use':
+                        other = ds_[0][2]['rv']['op']
+                    elif len(ds_) == 1 and ds_[0][0] == 'assign' and ds_[0][2]['rv']['r'] == 'ref' and all(p_ == '*' for p_ in ds_[0][2]['rv']['pl']['p']):
+                        other = {'k': 'copy', 'pl': {'l': ds_[0][2]['rv']['pl']['l'], 'p': [], 'ty': ''}}
+                    else:
+                        break
                 if other['k'] == 'const' and 'promoted' in other:
                     pv = self.F.promoted_value(fn, other['promoted'])
                     if pv and pv[0] == 'int':
                         c = pv[1]
+                    elif pv and pv[0] == 'some-int' and pv[1] != 0:
+                        c = pv[1]        # Option image (checked_neg / checked_abs of the divisor) == Some(c), c != 0
                 if c is not None and self.op_in(a0, self.zp, ZP_FIELDS):
                     eq = dd.endswith('eq')
                     if c == 0:
